@@ -96,6 +96,7 @@ UNIT_FALLBACK = {
     "noexts": [],
     "maxpath": [],
     "gfalinks": [],
+    "jsonlinks": [],
     "prune": [("filter::verif::f_remove_censored_3", "remove_censored_exts on 3 Kmer4 entries"), ("filter::verif::f_remove_censored_sharded", "remove_censored_exts_sharded, 2 entries + 3 all_kmers")],
     "msppiece": [("msp::verif::m_msp_sequence_short", "msp_sequence on reads of exactly k = 3, and k - 1, bases")],
 }
@@ -397,7 +398,7 @@ COMMON_TRUST = [
 
 
 HOOK_COMMITS = ["b99dd0a", "cace3e3"]
-FIX_COMMITS = ["fbab396", "2f3f16f", "a14fcdf", "43ef2dd"]
+FIX_COMMITS = ["fbab396", "2f3f16f", "a14fcdf", "43ef2dd", "faf6cb2"]
 
 PROPS["C19"] = {
     "title": "Index construction is schedule-independent and lookups are exact",
@@ -419,18 +420,18 @@ PROPS["C19"] = {
 PROPS["C20"] = {
     "title": "Exports and persistence are faithful",
     "kani": lambda tier: [],
-    "verus": [("gfalinks", r"^gfa_links$")],
+    "verus": [("gfalinks", r"^gfa_links$"), ("jsonlinks", r"^DebruijnGraph::(json_links_step|json_last_with_links)$")],
     "bounded": lambda tier: [],
     "design_ref": "DESIGN.md §6 C20",
     "undecided": [
-        "serde round trips of k-mers, DNA strings, extension sets and graphs (derive output, third-party code), the JSON export, the S lines and the header of the GFA export, byte-level well-formedness of anything written: string / byte-grammar reasoning neither verifier supports - NOT decided",
+        "serde round trips of k-mers, DNA strings, extension sets and graphs (derive output, third-party code), the node objects / link objects / `rest` part of the JSON export, the S lines and the header of the GFA export, byte-level well-formedness of anything written: string / byte-grammar reasoning neither verifier supports - NOT decided",
         "the GFA link clause is decided per node (which adjacencies node u writes); 'every adjacency exactly once over the whole file' follows from it only together with edge symmetry of the graph (if u lists v, v lists u - C03's undecided global symmetry) by the argument written next to must_list in verus/units/gfalinks.rs.tmpl; the exemption for palindromic single-k-mer nodes is not modelled (such a node may list a link twice, which the statement allows)",
         "node_to_gfa as a whole (`w: &mut dyn Write`, the tag closure, `?` on the S line) is outside the Verus subset: the two link loops are a statement range (rule R15), `writeln!` with a declared format string is recorded by rule R19, I/O errors end the function early and nothing is claimed then"],
     "trust": VERUS_TRUST + GRAPH_TRUST + [SEAM_NOTE,
         "core::fmt renders an integer / a string slice argument of writeln! as itself, one line per call (rule R19's line log)",
         "Node::l_edges / r_edges are functions of the graph and the node (edges_of); their relational contract is proved in unit nodesall"],
-    "level_text": "Partial claim - the link clause of the GFA export, per node: the two loops of the real DebruijnGraph::node_to_gfa that write the L lines (rule R15 statement range) are proved to write, in order, exactly one line `L u - v t (K-1)M` for every left edge of u whose target id is >= u and exactly one line `L u + v t (K-1)M` for every right edge whose target id is > u OR which is a right-side hairpin (target u, arriving at u's right end), with t = '+' when the link arrives at v's left end and '-' at its right end - the canonical-emitter rule under which every adjacency, including self-links on either side, is listed exactly once (Verus, unbounded).",
-    "level_note": "PARTIAL: only the L lines of the GFA export; serde, JSON, S lines and byte-level well-formedness are not decided (see undecided_clauses). One genuine defect was found by this obligation and repaired (known_findings.json F4).",
+    "level_text": "Partial claim, two clauses. (1) JSON export, separators of the \"links\" array: one trip of the links loop of the real DebruijnGraph::to_json_rest (rule R15 loop body; Node::edges_to_json assumed to write the node's links as one group and to say whether it wrote) is proved to follow a node's group with a separator EXACTLY when a later node contributes a group too, and the preceding loop (R15) to compute the last node that has links - so the array has no leading, doubled or trailing comma for any graph, with or without links on the last node (Verus, unbounded). (2) The link clause of the GFA export, per node: the two loops of the real DebruijnGraph::node_to_gfa that write the L lines (rule R15 statement range) are proved to write, in order, exactly one line `L u - v t (K-1)M` for every left edge of u whose target id is >= u and exactly one line `L u + v t (K-1)M` for every right edge whose target id is > u OR which is a right-side hairpin (target u, arriving at u's right end), with t = '+' when the link arrives at v's left end and '-' at its right end - the canonical-emitter rule under which every adjacency, including self-links on either side, is listed exactly once (Verus, unbounded).",
+    "level_note": "PARTIAL: only the L lines of the GFA export and the separators of the JSON links array; serde, the rest of the JSON export, S lines and byte-level well-formedness are not decided (see undecided_clauses). Two genuine defects were found by these obligations and repaired (known_findings.json F4, F5).",
 }
 
 NOT_APPLICABLE = {
